@@ -17,7 +17,7 @@ fn gen_word(r: &mut Rng) -> String {
     if !r.chance(1, 3) {
         return r.pick(WORDS).to_string();
     }
-    let alpha = ['a', 'b', '\\', '\\', '"', '\'', ' ', '%', '~', '*', '\u{e9}', '-', '$', '`', '{', '}', '@', '/', '.', 'i', ':', '0', 'n'];
+    let alpha = ['a', 'b', '\\', '\\', '"', '\'', ' ', '%', '~', '*', '\u{e9}', '-', '$', '`', '{', '}', '@', '/', '.', 'i', ':', '0', 'n', '\u{a0}', '\u{3000}', '\u{2028}', '\u{b}', '\u{c}', '\u{85}', '\u{2009}', '\u{1b}', '\u{200b}', '\u{feff}', '\u{301}'];
     let n = 1 + r.usize(6);
     let s: String = (0..n).map(|_| alpha[r.usize(alpha.len())]).collect();
     match crate::gen::word(&s, r.below(3) as u8) {
